@@ -35,12 +35,9 @@ pub fn run_prog<G: Cv>(env: &Env<G>, prog: &Program, seed: u64) -> Out {
     });
     let (bytes, mut ptr, comms, order) = match pres {
         Ok((Ok((b, t)), c, o)) => (b, t, c, o),
-        Ok((Err(e), _, _)) => {
-            out.bad.push(("prove returns Ok".into(), format!("Err({:?})", e)));
-            return out;
-        }
-        Err(m) => {
-            out.bad.push(("prove returns".into(), format!("panicked: {}", m)));
+        // no honest proof: completeness is C01's business; there is no run to monitor
+        Ok((Err(_), _, _)) | Err(_) => {
+            out.precondition_failed = true;
             return out;
         }
     };
@@ -85,11 +82,17 @@ pub fn run_prog<G: Cv>(env: &Env<G>, prog: &Program, seed: u64) -> Out {
         }
         Err(e) => out.bad.push(("prover transcript follows the protocol order (every element absorbed before the challenges that must depend on it)".into(), e)),
     }
-    if let Err(e) = run_monitor(&steps, &vm) {
-        out.bad.push(("verifier transcript follows the protocol order".into(), e));
+    if vtr.is_some() {
+        if let Err(e) = run_monitor(&steps, &vm) {
+            out.bad.push(("verifier transcript follows the protocol order".into(), e));
+        }
+    } else if let Err(e) = run_monitor_prefix(&steps, &vm) {
+        // the verifier rejected the honest proof (C01's business) and may have stopped early:
+        // whatever it did record must still follow the protocol order
+        out.bad.push(("verifier transcript follows the protocol order (as far as it ran)".into(), e));
     }
     // (2) role synchrony: identical event sequences (kind, label, payload / challenge output)
-    if pm.len() != vm.len() {
+    if vtr.is_some() && pm.len() != vm.len() {
         out.bad.push(("prover and verifier perform the same number of transcript operations".into(), format!("prover {} verifier {}", pm.len(), vm.len())));
     }
     for (i, (a, b)) in pm.iter().zip(vm.iter()).enumerate() {
@@ -161,8 +164,8 @@ pub fn run_prog<G: Cv>(env: &Env<G>, prog: &Program, seed: u64) -> Out {
 pub fn run_deviated<G: Cv>(env: &Env<G>, prog: &Program, seed: u64) -> (u64, Vec<(String, String)>) {
     use crate::devspace::{apply, PDev, Slot};
     let mut bad = vec![];
-    let pr = program::prove::<G>(prog, &env.pc, &env.bp, seed, "c06-dev", Dev::None);
-    let Ok(bytes) = pr.proof else { return (0, bad) };
+    let Ok(pr) = program::try_prove::<G>(prog, &env.pc, &env.bp, seed, "c06-dev", Dev::None) else { return (0, bad) };
+    let Ok(bytes) = pr.proof.clone() else { return (0, bad) };
     let Some(parts) = Parts::<G>::parse(&bytes) else { return (0, bad) };
     let mut devs: Vec<PDev> = vec![];
     for i in 0..11 {
